@@ -195,4 +195,11 @@ def run(ck):
     kl = [f for f in facts.all_fns() if f.name.startswith(SM + "openKeyless") and f.name.endswith("(lambda)")]
     ck.need(len(kl) == 1, "C55: openKeyless lambda not found")
     ck.require_fact("S4.keyless-open", ck.flow(kl[0]), ev_return(E.m_const(1)), E.m_mentions(SM + "openForWritingAt"), True, "return true")
+    ck.rule("S7 WHO/SIBLING key lookups: Ipc::StoreMap::nameByKey (the raw hash position, *before* the fileNos relocation that header updates install) is called only "
+            "by fileNoByKey (which applies the relocation) and by openForUpdating (which needs the name to record the relocation); every other by-key operation -- "
+            "openForReading/openForWriting/freeEntryByKey/peekAtEntry-style lookups -- goes through fileNoByKey, so that after a 304 header update relocated an anchor "
+            "all workers and all operations agree on which anchor a key names (a purge by raw name hits the old, empty anchor and is silently lost)")
+    ck.who_calls("S7.key-lookups-agree", facts, "Ipc::StoreMap::nameByKey",
+                 {"Ipc::StoreMap::fileNoByKey": "applies the fileNos relocation", "Ipc::StoreMap::openForUpdating": "records the stale name for the relocation"},
+                 min_callers=2, kinds=("call",), why="(that operation would address the pre-relocation anchor)")
     ck.assume("visibility/ordering of the index across processes is not decided; per-anchor aliasing (which anchor a lock belongs to) is not tracked")
